@@ -11,13 +11,17 @@
 
     KNOWN FINDING (F2): a discriminant outside the base type's range is *accepted* and emitted with a
     different value; [C08_range_refuted] exhibits it on the model, and the repository's own test
-    [can_resolve_enum] pins the behaviour (Item0 = -2 on u32), so it is recorded, not repaired. *)
+    [can_resolve_enum] pins the behaviour (Item0 = -2 on u32), so it is recorded, not repaired.
+    REFUTED ON THE MODEL (RefutedWitnesses*.v; open findings F12a, F12b, F12c): accepted enums that are emitted with no
+    variants, with a struct as repr type, with two variants of one discriminant. *)
 From Coq Require Import List NArith ZArith Bool String.
 From PyxisModel Require Import Base Grammar SemTypes Registry Sem RustLayout EnumLemmas WholeBuild Sexp Emit EmitReaders EmitShape.
 Import ListNotations.
 Local Open Scope Z_scope.
 
 From PyxisModel Require EmitDefault EmitMarkersEnum.
+
+From PyxisModel Require RefutedInputs RefutedWitnessesOrder RefutedWitnessesEmit RefutedWitnessesFn.
 
 Theorem C08_main : forall st owner d rs,
   enum_build st owner d = Ok rs ->
@@ -142,3 +146,45 @@ Theorem C08_emitted_enum_default :
       (EmitDefault.has_default (enum_derives e) = true -> EmitDefault.item_default_ok e = true).
 Proof. exact EmitDefault.C08_emitted_enum_default. Qed.
 Print Assumptions C08_emitted_enum_default.
+
+Theorem C08_enum_without_variants_refuted_F12a :
+  exists (st0 st : sstate) (files : RefutedInputs.files_t),
+      RefutedInputs.built [] 4 RefutedInputs.f12a_mods st0 st files /\
+      RefutedInputs.side_ok st0 = true /\
+      option_map ed_fields (RefutedInputs.enumdef_at st ["a"%string; "E"%string]) = Some [] /\
+      RefutedInputs.size_at st ["a"%string; "E"%string] = Some 1%N /\
+      RefutedInputs.thenr (RefutedInputs.enum_of files "a.rs" "E") enum_repr = Some [Atom "u8"] /\
+      RefutedInputs.thenr (RefutedInputs.enum_of files "a.rs" "E") enum_variants_of = Some [].
+Proof. exact RefutedWitnessesEmit.C08_C13_enum_without_variants_refuted_F12a. Qed.
+Print Assumptions C08_enum_without_variants_refuted_F12a.
+
+Theorem C08_enum_struct_base_refuted_F12b :
+  exists (st0 st : sstate) (files : RefutedInputs.files_t),
+      RefutedInputs.built [] 4 RefutedInputs.f12b_mods st0 st files /\
+      RefutedInputs.side_ok st0 = true /\
+      option_map ed_type (RefutedInputs.enumdef_at st ["a"%string; "E"%string]) =
+      Some (TRaw ["a"%string; "S"%string]) /\
+      RefutedInputs.typedef_at st ["a"%string; "S"%string] <> None /\
+      option_map it_cat (reg_get (st_reg st) ["a"%string; "S"%string]) = Some Defined /\
+      RefutedInputs.thenr (RefutedInputs.enum_of files "a.rs" "E") enum_repr =
+      Some
+        (tks ["crate"%string; ":"%string; ":"%string; "a"%string; ":"%string; ":"%string; "S"%string]) /\
+      option_map EmitPaths.type_paths
+        (RefutedInputs.thenr (RefutedInputs.enum_of files "a.rs" "E") enum_repr) =
+      Some [["a"%string; "S"%string]] /\
+      option_map FilesRead.file_decls (RefutedInputs.file_named files "a.rs") =
+      Some [("enum"%string, "E"%string); ("struct"%string, "S"%string)].
+Proof. exact RefutedWitnessesEmit.C08_C13_enum_struct_base_refuted_F12b. Qed.
+Print Assumptions C08_enum_struct_base_refuted_F12b.
+
+Theorem C08_enum_duplicate_discriminant_refuted_F12c :
+  exists (st0 st : sstate) (files : RefutedInputs.files_t) (vs : list evariant),
+      RefutedInputs.built [] 4 RefutedInputs.f12c_mods st0 st files /\
+      RefutedInputs.side_ok st0 = true /\
+      option_map ed_fields (RefutedInputs.enumdef_at st ["a"%string; "E"%string]) =
+      Some [("A"%string, 1); ("B"%string, 1)] /\
+      RefutedInputs.thenr (RefutedInputs.enum_of files "a.rs" "E") enum_variants_of = Some vs /\
+      map (fun v : evariant => (evr_name v, evr_disc v)) vs = [("A"%string, 1); ("B"%string, 1)] /\
+      ~ NoDup (map evr_disc vs).
+Proof. exact RefutedWitnessesEmit.C08_C13_enum_duplicate_discriminant_refuted_F12c. Qed.
+Print Assumptions C08_enum_duplicate_discriminant_refuted_F12c.
